@@ -380,14 +380,14 @@ class DepthLog(list):
         self.depths.append(self.d)
 
 
-def new_parser(log, values=True, host=None):
+def new_parser(log, values=True, host=None, debug=False):
     """a fresh hotxlfp.Parser with one recording listener per event.  `host` (re-entrant scenarios): an object
     with `cells` / `names` (label / variable name -> formula the host stores there), `fns` (names of INDIRECT-like
     functions) and `evaluate(parser, formula) -> record`"""
     common.load_repo()
     import hotxlfp
     from hotxlfp.formulas import error
-    p = hotxlfp.Parser()
+    p = hotxlfp.Parser(debug=True) if debug else hotxlfp.Parser()
     for k, v in VARS.items():
         p.set_variable(k, v)
     p.set_function('ID', lambda *a: a[0] if a else None)
@@ -925,6 +925,10 @@ def cases(rng, ctx):
     for _ in range(n):
         t = gen(rng, rng.randrange(0, maxd + 1))
         out.append({'kind': 'tree', 't': t, 'full': rng.random() < 0.3, 'ws': rng.randrange(1 << 30) if rng.random() < 0.3 else 0})
+        if rng.random() < 0.12:
+            out.append(dict(out[-1], debug=True))          # the same tree on a parser constructed with debug=True
+    for f in ['SUM(A1:A3)*B1+K7()*nosuchvar', 'B1+NOSUCH(A1,A1:A3)', 'A1+#N/A', 'A1+B2*C3', 'BOOM(A1)+B1', 'va+A1']:
+        out.append({'kind': 'tree', 'f': f, 'debug': True})
     # (c) grid: label pairs x $ patterns x case x corner orders, alone and inside a call
     pats = [(a, b) for a in ('', '$') for b in ('', '$')]
     pairs = [(p, q) for p in GRID_LABELS for q in GRID_LABELS]
@@ -1066,9 +1070,16 @@ def run_reent(c):
 def impl(c):
     if c['kind'] == 'tree':
         log = []
-        p = new_parser(log)
+        p = new_parser(log, debug=bool(c.get('debug')))
         f = formula_of(c)
-        rec = p.parse(f)
+        if c.get('debug'):
+            # a parser constructed with debug=True prints what it meets; the events and the record are what they are without it
+            import contextlib
+            import io
+            with contextlib.redirect_stderr(io.StringIO()), contextlib.redirect_stdout(io.StringIO()):
+                rec = p.parse(f)
+        else:
+            rec = p.parse(f)
         return {'f': f, 'rec': rec, 'log': log}
     if c['kind'] == 'session':
         res = dict(run_session(c['steps'])[c['k']])
